@@ -319,9 +319,10 @@ impl FromStr for PartialDSym {
             for i in 0..spec.dim {
                 let ms_i = spec.m_spec.get(i).unwrap();
                 let mut k = 0;
+                let mut assigned = vec![false; spec.size + 1];
 
                 for d in 1..=spec.size {
-                    if dsym.v(i, i + 1, d) == Some(0) {
+                    if !assigned[d] {
                         let &m = ms_i.get(k)
                             .ok_or("incomplete degree spec".to_string())?;
                         let r = dsym.r(i, i + 1, d).unwrap(); 
@@ -329,6 +330,9 @@ impl FromStr for PartialDSym {
                             return Err("illegal degree value".into());
                         }
                         dsym.set_v(i, d, m / r);
+                        for e in dsym.orbit([i, i + 1], d) {
+                            assigned[e] = true;
+                        }
                         k += 1;
                     }
                 }
